@@ -76,6 +76,32 @@ def cases(rng, tier):
         instrs += [{"name": "h", "qubits": [a]}, {"name": "measure", "qubits": [a], "clbits": [1]}]
         yield ("simulate", {"nq": nq, "ncl": 2, "instrs": instrs, "via": rng.choice(["func", "sampler"]), "qregs": gen.rand_regs(rng, nq),
                             "always_oracle": True})
+    # circuits whose rotation angles arrive through a ParameterVector with more than ten elements (bound by position, not by name)
+    for _ in range(3 if tier == "quick" else 30):
+        nq = rng.randint(2, 3)
+        m = rng.randint(11, 14)
+        order = list(range(m))
+        rng.shuffle(order)
+        instrs = []
+        for k in order:
+            instrs.append({"name": rng.choice(["ry_t", "rx_t"]), "qubits": [rng.randrange(nq)], "t": frac(Fraction(rng.randint(-9, 9), rng.choice([5, 7, 11]))),
+                           "pidx": k})
+            if rng.random() < 0.3:
+                instrs.append({"name": "cx", "qubits": rng.sample(range(nq), 2)})
+        instrs += [{"name": "measure", "qubits": [q], "clbits": [q]} for q in range(nq)]
+        yield ("simulate", {"nq": nq, "ncl": nq, "instrs": instrs, "via": "sampler", "pvec": m, "always_oracle": True})
+    # a reset of a qubit that is never measured again but acts on a measured qubit afterwards
+    for _ in range(4 if tier == "quick" else 40):
+        nq = rng.randint(2, 3)
+        a, b = rng.sample(range(nq), 2)
+        instrs = [{"name": rng.choice(["x", "h", "sx"]), "qubits": [a]}]
+        if rng.random() < 0.5:
+            instrs += [{"name": "h", "qubits": [b]}, {"name": "cx", "qubits": [b, a]}]
+        instrs += [{"name": "reset", "qubits": [a]}, {"name": rng.choice(["cx", "cz", "cy"]), "qubits": [a, b]}]
+        if rng.random() < 0.5:
+            instrs.append({"name": "h", "qubits": [b]})
+        instrs.append({"name": "measure", "qubits": [b], "clbits": [0]})
+        yield ("simulate", {"nq": nq, "ncl": 1, "instrs": instrs, "via": rng.choice(["func", "sampler"]), "always_oracle": True})
     for _ in range(N):
         p = _gen(rng, tier)
         if p["nq"] > 1 and rng.random() < 0.4:
@@ -129,6 +155,10 @@ def _circ(payload, key="instrs"):
     if payload["ncl"]:
         regs.append(ClassicalRegister(payload["ncl"], "c"))
     qc = QuantumCircuit(*regs)
+    pv = None
+    if payload.get("pvec"):
+        from qiskit.circuit import ParameterVector
+        pv = ParameterVector("t", payload["pvec"])
     for ins in payload[key]:
         qs = [qc.qubits[q] for q in ins["qubits"]]
         cs = [qc.clbits[c] for c in ins.get("clbits", [])]
@@ -145,7 +175,11 @@ def _circ(payload, key="instrs"):
             import math
             t = Fraction(ins["t"])
             c, sn = (1 - t * t) / (1 + t * t), 2 * t / (1 + t * t)
-            op = canon.mk_op(ins["name"][:2], [2 * math.atan2(float(sn), float(c))])
+            if pv is not None and ins.get("pidx") is not None:
+                from qiskit.circuit.library import RYGate, RXGate
+                op = (RYGate if ins["name"] == "ry_t" else RXGate)(pv[ins["pidx"]])   # value bound by the sampler
+            else:
+                op = canon.mk_op(ins["name"][:2], [2 * math.atan2(float(sn), float(c))])
         else:
             op = canon.mk_op(ins["name"], ins.get("params", ()))
         if ins.get("cond"):
@@ -175,7 +209,16 @@ def run_real(kind, payload):
     qc = _circ(payload)
     if payload.get("before"):
         ExactSampler().run([_circ(payload, "before")]).result()
-    if payload.get("via") == "sampler":
+    if payload.get("via") == "sampler" and payload.get("pvec"):
+        import math
+        vals = [0.0] * payload["pvec"]
+        for i in payload["instrs"]:
+            if i.get("pidx") is not None:
+                t = Fraction(i["t"])
+                vals[i["pidx"]] = 2 * math.atan2(float(2 * t / (1 + t * t)), float((1 - t * t) / (1 + t * t)))
+        quasi = ExactSampler().run([qc], [vals]).result().quasi_dists[0]
+        d = {int(k): float(v) for k, v in quasi.items()}
+    elif payload.get("via") == "sampler":
         quasi = ExactSampler().run([qc]).result().quasi_dists[0]
         d = {int(k): float(v) for k, v in quasi.items()}
     else:
@@ -223,7 +266,7 @@ def nontrivial_key(kind, payload):
 def oracle(kind, payload):
     from ..oracles import sem
     refused = any(i.get("cond") or (i["name"] not in ("measure",) and i.get("clbits")) for i in payload["instrs"])
-    flat = dict(payload, instrs=_flat(payload["instrs"]))
+    flat = dict(payload, instrs=_flat(payload["instrs"]), pvec=None)   # the reference circuit carries the bound angles
     real = call_real(lambda p: run_real(kind, p), payload)
     if refused:
         return None if real.get("error") == "ValueError" else f"classically conditioned / classical-argument operation not refused with ValueError: {str(real)[:120]}"
